@@ -272,6 +272,12 @@ class C17(ProtoSpec):
             from .common import P_E
             P, E = P_E()
             return [[("conn", 0), b0, ("raw", 0, {"type": "open", "mailbox": "m"}), ("drop", 0), ("tick", E + 2 * P)]]
+        if getattr(self, "crowded", False):
+            # two sides have mailbox m open, a third side is bound: its open is refused `crowded` (which still names
+            # the connection's mailbox), then every command of the alphabet, e.g. a close naming another mailbox
+            return [[("conn", 0), b0, ("raw", 0, {"type": "open", "mailbox": "m"}), ("conn", 1),
+                     ("raw", 1, {"type": "bind", "appid": "X", "side": "B"}), ("raw", 1, {"type": "open", "mailbox": "m"}),
+                     ("conn", 2), ("raw", 2, {"type": "bind", "appid": "X", "side": "C"})]]
         return [[], s1, s2]
 
     def nontrivial(self, worlds, mon):
@@ -290,6 +296,12 @@ RULE = ("BFS over every sequence (<= depth state-changing steps) of commands fro
 
 def make_spec(tier, name=None):
     sp = C17(tier, welcome=(name == "c17-welcome"), nolist=(name == "c17-nolist"))
+    if name == "c17-crowded":
+        sp.crowded = True
+        sp.binds = [("X", "A"), ("X", "B"), ("X", "C")]
+        sp.max_conns = 3
+        sp.depth = 2 if tier == "quick" else 3
+        sp.alpha = alphabet(sp.names, sp.mids, sp.binds)
     if name == "c17-expired":
         sp.expired = True
         sp.max_conns = 2 if tier == "quick" else 3
@@ -304,5 +316,6 @@ def run(pid, tier, seed, args):
     s3 = make_spec(tier, "c17-nolist")
     return run_specs(pid, tier, seed, args, [("c17", s1, s1.depth, b), ("c17-welcome", s2, max(2, s2.depth - 2), b),
                                              ("c17-nolist", s3, s3.depth, b),
-                                             ("c17-expired", make_spec(tier, "c17-expired"), make_spec(tier, "c17-expired").depth, b / 2)],
+                                             ("c17-expired", make_spec(tier, "c17-expired"), make_spec(tier, "c17-expired").depth, b / 2),
+                                             ("c17-crowded", make_spec(tier, "c17-crowded"), make_spec(tier, "c17-crowded").depth, b / 2)],
                      rule=RULE)
